@@ -58,4 +58,12 @@ RECIPES = [
     ("C16", "neutral", [], R, "                res.srs.ext[q] = np.fmax(res.srs.ext[q], srs_cur)", "                res.srs.ext[q] = np.fmax(srs_cur, res.srs.ext[q])", "commuted fmax"),
     ("C16", "neutral", [], E, "        kee = k[ee]\n", "        kee = k[ee]\n        kcopy = kee.copy()\n        kcopy *= 1.0\n", "in-place operator on a private copy"),
     ("C16", "neutral", [], E, "    solout.a = solout.a.copy()\n    solout.v = solout.v.copy()\n", "    solout.a = np.array(sol.a)\n    solout.v = np.array(sol.v)\n", "copy through np.array"),
+    ("C16", "neutral", [], E, "    if nrb > 0:\n        solout.a[:nrb] *= ruf * suf\n", "    if nrb:\n        np.multiply(solout.a[:nrb], ruf * suf, out=solout.a[:nrb])\n", "truthiness of a count; ufunc with out= on the private copy"),
+    ("C16", "neutral", [], E, "    if nrb == k.shape[0]:\n", "    if k.shape[0] <= nrb:\n", "other spelling of the all-rigid-body test"),
+    ("C16", "neutral", [], E, "    solout = SimpleNamespace(**vars(sol))\n", "    solout = copy.copy(sol)\n", "shallow copy of the namespace"),
+    ("C16", "neutral", [], U, "            curext.ext = mm.ext @ [[1, 1]]\n", "            curext.ext = np.hstack((mm.ext, mm.ext))\n", "both columns by stacking"),
+    ("C16", "neutral", [], U,
+     "    j = nan_argmax(curext.ext[:, 0], mm.ext[:, 0]).nonzero()[0]\n    if j.size > 0:\n        for i in j:\n            curext.maxcase[i] = maxcase[i]\n        curext.ext[j, 0] = mm.ext[j, 0]\n        _put_time(curext, mm, j, 0, 0)\n\n    j = nan_argmin(curext.ext[:, 1], mm.ext[:, 1]).nonzero()[0]\n    if j.size > 0:\n        for i in j:\n            curext.mincase[i] = mincase[i]\n        curext.ext[j, 1] = mm.ext[j, 1]\n        _put_time(curext, mm, j, 1, 1)\n",
+     "    jx = nan_argmax(curext.ext[:, 0], mm.ext[:, 0]).nonzero()[0]\n    jn = nan_argmin(curext.ext[:, 1], mm.ext[:, 1]).nonzero()[0]\n    for i in jx:\n        curext.maxcase[i] = maxcase[i]\n    for i in jn:\n        curext.mincase[i] = mincase[i]\n    curext.ext[jx, 0] = mm.ext[jx, 0]\n    curext.ext[jn, 1] = mm.ext[jn, 1]\n    if jx.size > 0:\n        _put_time(curext, mm, jx, 0, 0)\n    if jn.size > 0:\n        _put_time(curext, mm, jn, 1, 1)\n",
+     "both selectors first, then the replacements"),
 ]
